@@ -29,6 +29,8 @@ pub struct AppLog {
     /// terminal error of each accept loop: ("accept_uni" | "accept_bi" | "receive_datagram", error)
     pub ended: Vec<(String, ConnectionError)>,
     pub cancelled_accepts: u64,
+    /// (id reported by SendStream::id(), bytes written) of the uni streams the application opened
+    pub opened_uni: Vec<(u64, Vec<u8>)>,
 }
 
 thread_local! {
